@@ -1,3 +1,10 @@
--- This module serves as the root of the `Passage` library.
--- Import modules here that should be built as part of the library.
-import Passage.Basic
+-- Root of the `Passage` library: every model, lemma and property module.
+import Passage.Props.C09
+import Passage.Props.C11
+import Passage.Props.C13
+import Passage.Props.C18
+import Passage.Driver.C09
+import Passage.Driver.C11
+import Passage.Driver.C13
+import Passage.Driver.C18
+import Passage.Crypto.SelfTest
